@@ -3,8 +3,10 @@
 A hierarchy is a JSON model
 
     {"kind": "one" | "cyc" | "pkg",
-     "bases":   [[b, ...], ...]      per class (index = class number, class name C<i>): ordered, distinct; b is an int
-                                     (another class of the hierarchy) or a str (an external base, see EXTERNALS)
+     "bases":   [[b, ...], ...]      per class (index = class number, class name C<i>): ordered; b is an int
+                                     (another class of the hierarchy) or a str (an external base, see EXTERNALS); the
+                                     enumerated spaces use distinct bases, the package search now and then repeats a class
+                                     (CPython: "duplicate base class", an MRO it refuses to compute)
      "members": [[k0,k1,k2,k3], ...] per class, one kind code per name of NAMES: 0 absent, 1 function, 2 attribute,
                                      3 nested (member) class, 4 property, 5 staticmethod, 6 classmethod
      -- optional (absent = none) --
@@ -14,9 +16,10 @@ A hierarchy is a JSON model
                                      subclasses can be subscripted: `class B(A[int])`)
      "sub":     [[bool, ...], ...]   parallel to "bases": the base is written subscripted, `Cj[int]`
                                      (the target defines/inherits `__class_getitem__`, or lists the external base `Generic[T]`)
-     "nest":    [bool, ...]          class i is defined *inside* the body of the next class that is not flagged
-                                     (one level; the nested classes of a host directly precede it in the numbering, i.e.
-                                     numbering = order in which CPython finishes the class statements)
+     "depth":   [d, ...]             nesting depth of each class (0 = module level). Numbering = order in which CPython
+                                     *finishes* the class statements (post-order): the classes defined in a class's body
+                                     precede it; the host of class i is the next class of depth d-1
+     "nest":    [bool, ...]          (older, one level) class i is defined inside the next class that is not flagged
      -- kind "pkg" only --
      "mods":    [m, ...]             module number of each class (non-decreasing, so forward edges import earlier modules)
      "via":     [[form, ...], ...]   parallel to "bases": how the base is reached (see FORMS; ignored for externals)
@@ -190,9 +193,15 @@ def sub_of(case, i: int, k: int) -> bool:
 
 def hosts(case) -> list:
     """host[i] = index of the class whose body defines class i, or None."""
-    nest = case.get("nest")
     n = len(case["bases"])
     out: list = [None] * n
+    depth = case.get("depth")
+    if depth:
+        for i in range(n):
+            if depth[i] > 0:
+                out[i] = next(j for j in range(i + 1, n) if depth[j] == depth[i] - 1)
+        return out
+    nest = case.get("nest")
     if not nest:
         return out
     pending: list[int] = []
@@ -204,6 +213,22 @@ def hosts(case) -> list:
                 out[j] = i
             pending = []
     return out
+
+
+def chain(host, i: int) -> list[int]:
+    """Module-level class down to class i."""
+    out = [i]
+    while host[out[0]] is not None:
+        out.insert(0, host[out[0]])
+    return out
+
+
+def referable(host, b: int, i: int) -> bool:
+    """Can the class statement of i name class b in valid Python (b finished)? Either both are defined in the same body
+    (module or class) with b first, or b lives under another, earlier module-level class (reached from module level)."""
+    if b >= i:
+        return False
+    return host[b] == host[i] or chain(host, b)[0] != chain(host, i)[0]
 
 
 def hosted_in(case, h: int) -> list[int]:
@@ -243,7 +268,7 @@ def universe(case) -> list[str]:
     if any(cgi_of(case, i) for i in range(n)):
         out.append("__class_getitem__")
     out.extend(cls_name(case, j) for j, h in enumerate(hosts(case)) if h is not None)
-    return out
+    return list(dict.fromkeys(out))
 
 
 def member_code(case, definer: int, name: str) -> int:
@@ -362,8 +387,7 @@ def lib_tops(case) -> list[str]:
 
 
 def class_path(case, i: int) -> str:
-    h = hosts(case)[i]
-    local = cls_name(case, i) if h is None else f"{cls_name(case, h)}.{cls_name(case, i)}"
+    local = ".".join(cls_name(case, x) for x in chain(hosts(case), i))
     if case["kind"] == "pkg":
         return f"{mod_path(case, case['mods'][i])}.{local}"
     return f"m.{local}"
@@ -411,14 +435,15 @@ def render_pkg(case) -> dict[str, str]:
                 continue
             form = via[i][k]
             hb = host[b]
-            top = b if hb is None else hb  # the module-level class that is imported
-            tail = "" if hb is None else f".{cn(b)}"  # path from it to the base
+            down = chain(host, b)
+            top = down[0]  # the module-level class that is imported
+            tail = "".join(f".{cn(x)}" for x in down[1:])  # path from it to the base
             there = pkg_of(case, mods[b])
             src = mod_path(case, mods[b])
             alias = f"A{i}_{k}"
             if form == "d":
                 # same module: a sibling (same host) is a bare name in the host's body, anything else is reached from module level
-                expr = cn(b) if (hb is None or hb == host[i]) else f"{cn(hb)}.{cn(b)}"
+                expr = cn(b) if (hb is None or hb == host[i]) else cn(top) + tail
             elif form == "f" or (form == "r" and (there != here or not there)) or (form == "i" and not there):
                 imports.append(f"from {src} import {cn(top)} as {alias}")
                 expr = alias + tail
@@ -461,14 +486,16 @@ def render_pkg(case) -> dict[str, str]:
         if host[i] is not None:
             continue
         imports: list[str] = []
-        head_exprs = base_exprs(i, imports)
-        lines = [f"class {cn(i)}({', '.join(head_exprs)}):" if head_exprs else f"class {cn(i)}:"]
-        inner = class_body(case, i)
-        for j in hosted_in(case, i):
-            exprs = base_exprs(j, imports)
-            inner.append(f"    class {cn(j)}({', '.join(exprs)}):" if exprs else f"    class {cn(j)}:")
-            inner.extend(class_body(case, j, indent="        ") or ["        pass"])
-        lines.extend(inner or ["    pass"])
+
+        def render(k: int, indent: str) -> list[str]:
+            exprs = base_exprs(k, imports)
+            out = [f"{indent}class {cn(k)}({', '.join(exprs)}):" if exprs else f"{indent}class {cn(k)}:"]
+            inner = class_body(case, k, indent=indent + "    ")
+            for j in hosted_in(case, k):
+                inner.extend(render(j, indent + "    "))
+            return out + (inner or [f"{indent}    pass"])
+
+        lines = render(i, "")
         body[mods[i]].extend(imports)
         body[mods[i]].append("\n".join(lines) + "\n")
     # package __init__: re-exports ordered by source class, so that CPython has executed every module a
@@ -536,6 +563,7 @@ def topo_order(bases, cyclic) -> list[int]:
 ERR_CYCLE = "cycle"
 ERR_MRO = "inconsistent"
 ERR_ANCESTOR = "ancestor-uncomputable"
+ERR_DUP = "duplicate-base"
 EXTERNAL_DEFINER = -1
 
 
@@ -565,9 +593,12 @@ def _build(case, with_externals: bool):
             exec(compile(src, f"<C{i}>", "exec"), ns)  # noqa: S102
         except TypeError as exc:
             msg = str(exc)
-            if "consistent method resolution" not in msg and "MRO" not in msg:
+            if "duplicate base class" in msg:
+                status[i] = ERR_DUP  # raised by type.mro(): a linearization CPython refuses to compute
+            elif "consistent method resolution" in msg or "MRO" in msg:
+                status[i] = ERR_MRO
+            else:
                 raise RuntimeError(f"oracle: unexpected TypeError for {src!r}: {msg}") from exc
-            status[i] = ERR_MRO
             continue
         classes[i] = ns[f"C{i}"]
     # classes defined in the body of a host are attributes of the host (found through the MRO by its subclasses)
@@ -662,6 +693,16 @@ def features(case, expect) -> set[str]:
         out.add("multi-base")
     if any(e["status"] == "err" and e["why"] == ERR_MRO for e in expect):
         out.add("inconsistent-class")
+    if any(e["status"] == "err" and e["why"] == ERR_DUP for e in expect):
+        out.add("duplicate-base-class")
+    if any(len(chain(host, i)) >= 3 for i in range(len(bases))):
+        out.add("nesting-depth>=2")
+    names = [cls_name(case, i) for i in range(len(bases))]
+    for i in range(len(bases)):
+        if host[i] is not None and names[i] in [names[x] for x in chain(host, i)[:-1]]:
+            out.add("nested-class-named-like-enclosing-class")
+            if any(b == i and host[k] == host[i] for k, bs in enumerate(bases) for b in bs):
+                out.add("nested-class-named-like-enclosing-class:sibling-derives-by-bare-name")
     if any(e["status"] == "err" and e["why"] == ERR_ANCESTOR for e in expect):
         out.add("descendant-of-inconsistent")
     if any(e["status"] == "err" and e["why"] == ERR_CYCLE for e in expect):
